@@ -16,11 +16,31 @@ ASSUMPTIONS = [
     'weights are decimals with at most 4 decimals (model unit 1/10000); IEEE-754 double behaviour of '
     'int(w*1000) is tied by the FloatTie sweeps for 3-decimal weights and by skipping 4-decimal inputs whose '
     'float truncation is inexact (counted)',
-    'the final float accumulation of total progress is compared to the rational value to 1e-9, not proved',
+    'the float accumulation of total progress is the Coq primitive-float model FloatModel.fprogress '
+    '(compared bit for bit with Status.totalProgress on every case); its distance to the rational value '
+    'is proved (C20_float_progress: <= (n+3)*2^-52*X + n*2^-1074 for n <= 2^20 stages) and the run checks '
+    'the implementation against that proved bound instead of a 1e-9 tolerance',
+    'axioms reported by Print Assumptions for C20_float_progress/C20_float_complete/C20_float_constants '
+    '(Flocq 4.1 + Coq Reals): ClassicalDedekindReals.sig_not_dec, ClassicalDedekindReals.sig_forall_dec, '
+    'FunctionalExtensionality.functional_extensionality_dep, Classical_Prop.classic, and the primitive-float '
+    'specification axioms FloatAxioms.{add,mul,leb,eqb,ltb,opp,abs,div,...}_spec / Prim2SF_valid / SF2Prim_Prim2SF '
+    'etc. (Coq.Floats.FloatAxioms: the primitives implement IEEE-754 binary64); the PrimFloat/PrimInt63 primitives',
     'StatusMonitor is driven with a duck-typed experiment/controller (fakes trusted)',
 ]
 HEADER = 'Require Import V.Weights.Model.\nOpen Scope Z_scope.'
 CHECKER = 'check_case'
+FHEADER = 'Require Import V.Weights.FloatModel.\nFrom Coq Require Import PrimFloat.'
+FCHECKER = 'check_fcase'
+
+
+def cfloat(x):
+    """exact Coq primitive-float literal of a Python double"""
+    return '(%s)%%float' % float(x).hex()
+
+
+def proved_bound(n, X):
+    """C20_float_progress: |reported - X| <= (n+3)*2^-52*X + n*2^-1074 (as an exact Fraction)"""
+    return Fraction(n + 3, 2 ** 52) * X + Fraction(n, 2 ** 1074)
 
 
 def _doc(ms):
@@ -156,7 +176,9 @@ def run(ctx):
             for _ in range(1 if kind == 'missing' else reps):
                 cases.append(gen_given(rng, n, kind))
     _explore(ctx, cases)
-    ctx.count('cases', len(cases))
+    # every stage complete, fixed: ten stages of 0.1 report 0.9999999999999999 (within the proved bound, not 1.0)
+    _explore(ctx, [[1000] * 10, [2000, 3000, 5000], [None] * 7], complete=True)
+    ctx.count('cases', len(cases) + 3)
 
 
 def replay(ctx, path):
@@ -176,11 +198,13 @@ def replay(ctx, path):
     return 1 if (ctx.failures or ctx.disagreements) else 0
 
 
-def _explore(ctx, cases):
+def _explore(ctx, cases, complete=False):
     import experiment.model.frontends.flowir as F
     rng = ctx.rng
     mon = _Mon()
     terms = []
+    fterms = []
+    fcases = []
     try:
         for ms in cases:
             n = len(ms)
@@ -217,17 +241,32 @@ def _explore(ctx, cases):
             cur = rng.randrange(n)
             finished = [i for i in range(n) if prog[i] == D and i != cur and rng.random() < 0.8]
             transit = [i for i in range(n) if i not in finished and i != cur and prog[i] > 0]
+            if complete:
+                prog, cur, finished, transit = [D] * n, n - 1, list(range(n - 1)), []
             contributing = set(finished) | set(transit) | {cur}
             tp = mon.total_progress(m_, rec, n, cur, transit, finished, [Fraction(p, D) for p in prog])
             expect = sum(Fraction(prog[i], D) * Fraction(wm[i], 10000) for i in contributing)
-            if tp is None or abs(tp - float(expect)) > 1e-9:
-                ctx.disagree({'given': ms, 'prog': prog, 'cur': cur, 'finished': finished, 'transit': transit},
-                             tp, float(expect), 'C20 total progress: CheckStatus vs Weights.Model.total')
+            # the proved bound (C20_float_progress) replaces the former 1e-9 tolerance; n = contributing stages
+            bound = proved_bound(len(contributing), expect)
+            pcase = {'given': ms, 'prog': prog, 'cur': cur, 'finished': finished, 'transit': transit}
+            if tp is None or abs(Fraction(tp) - expect) > bound:
+                ctx.disagree(pcase, tp, float(expect),
+                             'C20 total progress: CheckStatus vs Weights.Model.total within the bound of C20_float_progress')
             valid_w = all(x >= 0 for x in w) and sum(wm) == 10000
-            if valid_w and tp is not None and not (-1e-9 <= tp <= 1 + 1e-9):
+            if valid_w and tp is not None and not (0 <= Fraction(tp) <= 1 + proved_bound(n, 1)):
                 ctx.fail({'given': ms, 'prog': prog, 'total': tp}, 'total progress outside [0,1]', cls)
-            if valid_w and all(p == D for p in prog) and len(contributing) == n and abs(tp - 1.0) > 1e-9:
+            if valid_w and all(p == D for p in prog) and len(contributing) == n and \
+                    abs(Fraction(tp) - 1) > proved_bound(n, 1):
                 ctx.fail({'given': ms, 'prog': prog, 'total': tp}, 'total progress is not one when every stage completed', cls)
+            if valid_w and all(p == D for p in prog) and len(contributing) == n:
+                ctx.count('complete_exactly_1.0' if tp == 1.0 else 'complete_within_ulps_of_1.0')
+            # ---- float model (bit for bit): active = current stage then stages in transit, then finished
+            if tp is not None:
+                act = [cur] + [i for i in sorted(transit) if i != cur]
+                fin_ = [i for i in sorted(finished) if i != cur]
+                fterms.append(cpair(clist([cpair(cfloat(float(Fraction(prog[i], D))), cfloat(mw[i])) for i in act], str),
+                                    cpair(clist([cfloat(mw[i]) for i in fin_], str), cfloat(tp))))
+                fcases.append(pcase)
             # ---- model comparison
             inexact_trunc = any(int((g / 10000.0) * 1000) != (abs(g) // 10) * (1 if g >= 0 else -1) for g in given)
             if inexact_trunc:
@@ -238,6 +277,10 @@ def _explore(ctx, cases):
                         'monitor_keeps': mon_ok, 'total_progress': tp})
     finally:
         mon.close()
+    fbad = ctx.model_mismatches(FHEADER, fterms, FCHECKER, chunk=150, name='fmodel')
+    for i in fbad:
+        ctx.disagree(fcases[i], 'see case term', fterms[i][:300],
+                     'C20 total progress: CheckStatus vs Weights.FloatModel.fprogress (bit for bit)')
     bad = ctx.model_mismatches(HEADER, terms, CHECKER, chunk=150)
     for k, i in enumerate(bad):
         ctx.disagree(terms[i], 'see case term', ctx.model_eval(HEADER, 'run_case (fst %s)' % terms[i])[:400] if k < 3 else '',
